@@ -265,6 +265,34 @@ func TestConcurrent(t *testing.T) {
 			}
 			res.PerMix["render-shared-model"]++
 		}
+		// A2: after calls that FAIL half-way (error paths returning pooled objects), goroutines render their own valid
+		// models with conditions
+		{
+			for _, poison := range poisonModels() {
+				transformer.TransformJSONProtoToDSL(poison)
+			}
+			var ms []*openfgav1.AuthorizationModel
+			var wants []string
+			for i := 0; i < workers; i++ {
+				m := &openfgav1.AuthorizationModel{SchemaVersion: "1.1", TypeDefinitions: []*openfgav1.TypeDefinition{{Type: fmt.Sprintf("t%d_%d", round, i)}, {Type: "user"}},
+					Conditions: map[string]*openfgav1.Condition{}}
+				for k := 0; k < 3; k++ {
+					cn := fmt.Sprintf("c%d_%d", i, k)
+					m.Conditions[cn] = &openfgav1.Condition{Name: cn, Expression: fmt.Sprintf("x < %d", r.Intn(1000)),
+						Parameters: map[string]*openfgav1.ConditionParamTypeRef{"x": {TypeName: openfgav1.ConditionParamTypeRef_TYPE_NAME_INT}}}
+				}
+				ms = append(ms, m)
+				wants = append(wants, renderKey(proto.Clone(m).(*openfgav1.AuthorizationModel), false))
+			}
+			res.OverlappingPairs += barrierRun(workers, func(w int) {
+				got := renderKey(ms[w], false)
+				atomic.AddInt64(&calls, 1)
+				if got != wants[w] {
+					report(mismatch{Mix: "render-after-failed-calls", Detail: "concurrent rendering after failed calls differs from the sequential one", Model: mj(ms[w]), Expected: wants[w], Observed: got})
+				}
+			})
+			res.PerMix["render-after-failed-calls"]++
+		}
 		// B: render + both graph builders + utils on the same model
 		{
 			base := modularUnsorted(r)
@@ -400,6 +428,19 @@ func TestConcurrent(t *testing.T) {
 		}
 	}
 	t.Logf("rounds=%d calls=%d overlapping pairs=%d mismatches=%d", rounds, calls, res.OverlappingPairs, len(res.Mismatches))
+}
+
+// poisonModels: models on which the printer fails late (after having rendered something).
+func poisonModels() []*openfgav1.AuthorizationModel {
+	intP := map[string]*openfgav1.ConditionParamTypeRef{"x": {TypeName: openfgav1.ConditionParamTypeRef_TYPE_NAME_INT}}
+	return []*openfgav1.AuthorizationModel{
+		{SchemaVersion: "1.1", TypeDefinitions: []*openfgav1.TypeDefinition{{Type: "leftover_type"}}, Conditions: map[string]*openfgav1.Condition{
+			"aaa_leftover": {Name: "aaa_leftover", Expression: "x < 1", Parameters: intP},
+			"zzz_bad":      {Name: "other_name", Expression: "x < 1", Parameters: intP}}},
+		{SchemaVersion: "1.1", TypeDefinitions: []*openfgav1.TypeDefinition{{Type: "aaa_leftover_type", Relations: map[string]*openfgav1.Userset{"ok": gen.Computed("x")}},
+			{Type: "zzz", Relations: map[string]*openfgav1.Userset{"bad": gen.Union(gen.This(), gen.This())},
+				Metadata: &openfgav1.Metadata{Relations: map[string]*openfgav1.RelationMetadata{"bad": {DirectlyRelatedUserTypes: []*openfgav1.RelationReference{{Type: "user"}}}}}}}},
+	}
 }
 
 func typeOrder(m *openfgav1.AuthorizationModel) string {
